@@ -34,6 +34,10 @@ type loader struct {
 	// loaded.
 	loaded map[string]*buildNode
 
+	// Directories whose build file has been read. A build file is read at
+	// most once, however many sub_builds entries lead to it.
+	read map[string]bool
+
 	tracer *loadTracer
 
 	errList *lexing.ErrorList
@@ -44,6 +48,7 @@ func newLoader(env *env) *loader {
 		env:     env,
 		loaded:  make(map[string]*buildNode),
 		nodes:   make(map[string]*buildNode),
+		read:    make(map[string]bool),
 		tracer:  newLoadTracer(),
 		errList: lexing.NewErrorList(),
 	}
@@ -137,6 +142,11 @@ func (l *loader) registerOuts(
 }
 
 func (l *loader) readBuildFile(p string) {
+	if l.read[p] {
+		return
+	}
+	l.read[p] = true
+
 	subDirMap := make(map[string]bool)
 
 	nodes, errs := readBuildFile(l.env, p)
